@@ -5,7 +5,7 @@
    Not modelled (EUnmodelled): arrays and sizeof on arrays, reading bit registers in
    expressions, float %, bool/float register indices, ints beyond 2^53 converted to float. *)
 From Coq Require Import ZArith List Bool String PrimFloat Lia.
-From Verif Require Import Aexp BGate PyVal Ast State GatesGen GateLib.
+From Verif Require Import Aexp BGate PyVal Ast State Arr GatesGen GateLib.
 Import ListNotations.
 Open Scope string_scope.
 Open Scope list_scope.
@@ -201,6 +201,7 @@ Fixpoint base_name (e : expr) : option string :=
   | _ => None
   end.
 
+(* scalar read of a variable: _process_variable without indices *)
 Definition process_variable (x : string) (indexed : bool) (cst : bool) (reqd : option vkind) : M pyval :=
   s <- getst;;
   guard (check_in_scope s x) EValidation;;;
@@ -237,6 +238,102 @@ Definition apply_op (name : string) (args : list pyval) : M pyval :=
   | Some _, _ => verr
   end.
 
+(* expressions used as array indices: evaluated with reqd_type = int; the fragment without
+   calls, nested indexing and sizeof (anything else is outside the model) *)
+Fixpoint eval_simple (e : expr) (cst : bool) (reqd : option vkind) {struct e} : M pyval :=
+  match e with
+  | ELit v =>
+      match reqd, v with
+      | None, _ => ret v
+      | Some KBool, VBool _ | Some KInt, VInt _ | Some KFloat, VFloat _ => ret v
+      | _, _ => verr
+      end
+  | EId x =>
+      if is_constant_name x then
+        match reqd with
+        | None | Some KFloat => lift (constant_value x)
+        | _ => verr
+        end
+      else process_variable x false cst reqd
+  | EUn op x =>
+      v <- eval_simple x cst reqd;;
+      guard (negb (String.eqb op "~") || match v with VInt _ | VBool _ => true | _ => false end) EValidation;;;
+      apply_op (if String.eqb op "-" then "UMINUS" else op) [v]
+  | EBin op l r =>
+      a <- eval_simple l cst reqd;;
+      b <- eval_simple r cst reqd;;
+      apply_op op [a; b]
+  | EImag | EDuration | EArrayLit _ | EOther _ => verr
+  | _ => unm "index expression with a call, nested indexing or sizeof"
+  end.
+
+(* Qasm3Analyzer.analyze_index_expression: variable name and index items of a[i, j] / a[i][j] *)
+Fixpoint nested_items (e : expr) (acc : list idxitem) : option (string * list idxitem) :=
+  match e with
+  | EId x => Some (x, acc)
+  | EIndexE c (IdxList (it :: _)) => nested_items c (it :: acc)
+  | _ => None
+  end.
+Definition index_items (e : expr) : M (string * list idxitem) :=
+  match e with
+  | EIndexE (EId x) (IdxList items) => ret (x, items)
+  | EIndexE (EId x) (IdxSet vals) => ret (x, map IExpr vals)
+  | EIndexE (EIndexE _ _) _ =>
+      match nested_items e [] with Some r => ret r | None => unm "nested index expression shape" end
+  | _ => ierr KAttr
+  end.
+
+Definition as_int_index (v : pyval) : M Z :=
+  match v with VInt z => ret z | VBool b => ret (if b then 1 else 0) | _ => unm "non-int array index" end.
+
+(* Qasm3Analyzer.analyze_classical_indices *)
+Definition analyze_indices (items : list idxitem) (dims : option (list Z)) : M (list (Z * Z * Z)) :=
+  match dims with
+  | None | Some [] => verr
+  | Some ds =>
+      guard (Nat.eqb (List.length items) (List.length ds)) EValidation;;;
+      mapMM (fun p =>
+               let '(it, d) := p in
+               let inb i := (0 <=? i) && (i <? d) in
+               match it with
+               | IRange a b c =>
+                   s0 <- (match a with None => ret 0 | Some e => v <- eval_simple e false (Some KInt);; as_int_index v end);;
+                   e0 <- (match b with None => ret (d - 1) | Some e => v <- eval_simple e false (Some KInt);; as_int_index v end);;
+                   st <- (match c with None => ret 1 | Some e => v <- eval_simple e false (Some KInt);; as_int_index v end);;
+                   guard (inb s0) EValidation;;;
+                   guard (inb e0) EValidation;;;
+                   guard (negb (((st <? 0) && (s0 <? e0)) || ((0 <? st) && (e0 <? s0)))) EValidation;;;
+                   guard (negb (st =? 0)) (EInternal KValue);;;      (* slice step cannot be zero *)
+                   ret (s0, e0, st)
+               | IExpr e =>
+                   v <- eval_simple e false (Some KInt);;
+                   i <- as_int_index v;;
+                   guard (inb i) EValidation;;;
+                   ret (i, i, 1)
+               end) (combine items ds)
+  end.
+
+(* _process_variable with indices: the selected cell or sub-array *)
+Definition process_indexed (x : string) (items : list idxitem) (cst : bool) (reqd : option vkind) : M arr :=
+  s <- getst;;
+  guard (check_in_scope s x) EValidation;;;
+  match get_visible s x with
+  | None => ierr KAttr
+  | Some v =>
+      guard (negb (cst && negb (v_const v))) EValidation;;;
+      guard (match reqd with None => true | Some k => vkind_eqb (v_kind v) k end) EValidation;;;
+      specs <- analyze_indices items (v_dims v);;
+      match v_val v with
+      | VVArr a =>
+          match arr_get a specs with
+          | Some (ALeaf None) => verr                    (* uninitialised element *)
+          | Some r => ret r
+          | None => unm "array shape"
+          end
+      | _ => unm "indexed non-array value"
+      end
+  end.
+
 Fixpoint eval (e : expr) (cst : bool) (reqd : option vkind) {struct e} : M (pyval * list stmt) :=
   match e with
   | EImag | EDuration => verr
@@ -248,14 +345,12 @@ Fixpoint eval (e : expr) (cst : bool) (reqd : option vkind) {struct e} : M (pyva
         end
       else v <- process_variable x false cst reqd;; ret (v, [])
   | EIndexE c idx =>
-      match c with
-      | EIndexE _ _ =>
-          match base_name e with
-          | Some x => v <- process_variable x true cst reqd;; ret (v, [])
-          | None => unm "nested index expression shape"
-          end
-      | EId x => v <- process_variable x true cst reqd;; ret (v, [])
-      | _ => ierr KAttr
+      '(x, items) <- index_items e;;
+      r <- process_indexed x items cst reqd;;
+      match r with
+      | ALeaf (Some v) => ret (v, [])
+      | ALeaf None => verr
+      | ANode _ => unm "array-valued expression"
       end
   | ESizeOf target idx =>
       match target with
@@ -266,7 +361,18 @@ Fixpoint eval (e : expr) (cst : bool) (reqd : option vkind) {struct e} : M (pyva
           | None => ierr KAttr
           | Some v => match v_dims v with
                       | None | Some [] => verr
-                      | _ => unm "sizeof"
+                      | Some (d0 :: ds) =>
+                          match idx with
+                          | None => ret (VInt d0, [])
+                          | Some ie =>
+                              iv <- eval_simple ie cst (Some KInt);;
+                              i <- as_int_index iv;;
+                              guard ((0 <=? i) && (i <? Z.of_nat (S (List.length ds)))) EValidation;;;
+                              match nth_error (d0 :: ds) (Z.to_nat i) with
+                              | Some d => ret (VInt d, [])
+                              | None => verr
+                              end
+                          end
                       end
           end
       | _ => verr
@@ -447,11 +553,120 @@ Definition visit_const_decl (t : ctype) (name : string) (init : expr) : M (list 
   putres (add_var s name (mkVar (kind_of_ctype t) (Some sz) (Some []) (VVScalar cv) true false false));;;
   emit stmts.
 
+(* visitor._evaluate_array_initialization + np.array(values, dtype): the literal as an array of
+   evaluated leaves.  Leaves whose Python type numpy would convert (float into an int array, a
+   negative value into a uint array, ...) and ragged literals are outside the model. *)
+Fixpoint array_literal (k : vkind) (e : expr) {struct e} : M arr :=
+  match e with
+  | EArrayLit vals =>
+      l <- (fix go (l : list expr) : M (list arr) :=
+              match l with
+              | [] => ret []
+              | x :: l' => a <- array_literal k x;; r <- go l';; ret (a :: r)
+              end) vals;;
+      ret (ANode l)
+  | _ =>
+      v <- eval_simple e false None;;
+      match k, v with
+      | KInt, VInt _ | KFloat, VFloat _ | KBool, VBool _ => ret (ALeaf (Some v))
+      | KUint, VInt z => if z <? 0 then unm "negative value in a uint array literal" else ret (ALeaf (Some v))
+      | KFloat, VInt z => f <- lift (float_of_Z z);; ret (ALeaf (Some (VFloat f)))
+      | _, _ => unm "array literal leaf converted by numpy"
+      end
+  end.
+
+Fixpoint arr_rect (a : arr) (shape : list Z) : bool :=
+  match shape, a with
+  | [], ALeaf _ => true
+  | d :: ds, ANode l => (Z.of_nat (List.length l) =? d) && forallb (fun x => arr_rect x ds) l
+  | _, _ => false
+  end.
+
+(* validator.validate_array_assignment_values: shape against dims, every value converted *)
+Fixpoint validate_array (k : vkind) (sz : option Z) (dims : list Z) (a : arr) {struct a} : res arr :=
+  match a with
+  | ALeaf _ => Err (EInternal KAttr)                  (* values.shape on a scalar *)
+  | ANode l =>
+      match dims with
+      | [] => Err (EInternal KIndex)                  (* dimensions[0] *)
+      | d :: ds =>
+          if negb (Z.of_nat (List.length l) =? d) then Err EValidation
+          else
+            do l' <- (fix go (l : list arr) : res (list arr) :=
+                        match l with
+                        | [] => Ok []
+                        | x :: l0 =>
+                            do x' <- (match x with
+                                      | ANode _ => validate_array k sz ds x
+                                      | ALeaf None => Err (EUnmodelled "None in an assigned array")
+                                      | ALeaf (Some v) =>
+                                          match ds with
+                                          | [] => do v' <- cast_value k sz v;; Ok (ALeaf (Some v'))
+                                          | _ => Err EValidation
+                                          end
+                                      end);;
+                            do r <- go l0;; Ok (x' :: r)
+                        end) l;;
+            Ok (ANode l')
+      end
+  end.
+
+Definition visit_array_decl (base : ctype) (dimexprs : list expr) (name : string) (init : option expr) : M (list stmt) :=
+  let k := kind_of_ctype base in
+  szv <- (match base with
+          | TBool => ret (VInt 1)
+          | TBit _ => eval_base_size base 1
+          | _ => eval_base_size base 32
+          end);;
+  sz <- (match szv with
+         | VInt z => if z <=? 0 then verr else ret z
+         | VBool _ => unm "bool base size"
+         | _ => verr
+         end);;
+  match base with
+  | TFloat _ => guard ((sz =? 32) || (sz =? 64)) EValidation
+  | _ => ret tt
+  end;;;
+  match base with TBit _ => verr | _ => ret tt end;;;                 (* arrays of bit are not allowed *)
+  guard (Nat.leb (List.length dimexprs) 7) EValidation;;;
+  dims <- mapMM (fun e => v <- eval_simple e true None;;
+                          match v with
+                          | VInt z => if z <=? 0 then verr else ret z
+                          | VBool _ => unm "bool array dimension"
+                          | _ => verr
+                          end) dimexprs;;
+  guard (forallb (fun d => d <? 64) dims) (EUnmodelled "huge array");;;
+  match k with KInt | KUint | KFloat | KBool => ret tt | _ => unm "array base type" end;;;
+  val <- (match init with
+          | None => ret (arr_full dims)
+          | Some (EArrayLit vals) =>
+              a <- array_literal k (EArrayLit vals);;
+              guard (arr_rect a (arr_shape 8 a)) (EUnmodelled "ragged array literal");;;
+              lift (validate_array k (Some sz) dims a)
+          | Some (EIndexE _ _ as e) =>
+              (* the new variable becomes a VIEW of the selected sub-array: the selection and the
+                 validation of its values are modelled (they can reject), the aliasing is not *)
+              '(x2, items2) <- index_items e;;
+              r <- process_indexed x2 items2 false None;;
+              match r with
+              | ANode _ => _ <- lift (validate_array k (Some sz) dims r);;
+                           unm "array initialised with a view of another array"
+              | _ => unm "array initialised with a scalar"
+              end
+          | Some _ => unm "array initialised with a non-literal"
+          end);;
+  s <- getst;;
+  putres (add_var s name (mkVar k (Some sz) (Some dims) (VVArr val) false false false));;;
+  ret [].
+
 Definition visit_classical_decl (t : ctype) (name : string) (init : option expr) : M (list stmt) :=
   guard (negb (is_constant_name name)) EValidation;;;
   s <- getst;;
   guard (negb (check_in_scope s name) || (in_block s && negb (smemk name (curr_scope s)))) EValidation;;;
-  match t with TArray _ _ | TArrayRef _ _ _ => unm "array declaration" | _ => ret tt end;;;
+  match t with
+  | TArray base dimexprs => visit_array_decl base dimexprs name init
+  | TArrayRef _ _ _ => unm "array reference declaration"
+  | _ =>
   szv <- match t with
          | TBool => ret (VInt 1)
          | TBit _ => eval_base_size t 1
@@ -489,7 +704,8 @@ Definition visit_classical_decl (t : ctype) (name : string) (init : option expr)
       with_modc s (sset name sz (mod_cregs s)) (num_clbits s + sz));;;
     let lit := match t with TBit None => 1 | _ => sz end in
     emit (stmts ++ [SClassicalDecl (TBit (Some (ELit (VInt lit)))) name init])
-  else emit stmts.
+  else emit stmts
+  end.
 
 Definition binop_of_assign (op : string) : M (option string) :=
   if String.eqb op "=" then ret None
@@ -507,6 +723,67 @@ Definition visit_assignment (lv : qarg) (op : string) (rv : expr) : M (list stmt
   | Some v =>
       guard (negb (v_const v)) EValidation;;;
       bop <- binop_of_assign op;;
+      (* the right-hand side may be a slice of an array: an array value *)
+      rhs_arr <- (match bop, rv with
+                  | None, EIndexE _ _ =>
+                      '(x2, items2) <- index_items rv;;
+                      r <- process_indexed x2 items2 false None;;
+                      match r with
+                      | ANode _ =>
+                          s2 <- getst;;
+                          (* validate_array_assignment_values writes the converted values back into the
+                             source view: only modelled when source and target have the same element type *)
+                          match get_visible s2 x2 with
+                          | Some v2 => guard (vkind_eqb (v_kind v2) (v_kind v) && match v_size v2, v_size v with
+                                                                                  | Some a, Some b => a =? b
+                                                                                  | _, _ => false
+                                                                                  end)
+                                             (EUnmodelled "slice assigned across element types");;;
+                                       ret (Some r)
+                          | None => ret (Some r)
+                          end
+                      | _ => ret None
+                      end
+                  | _, _ => ret None
+                  end);;
+      match rhs_arr with
+      | Some src =>
+          src' <- lift (validate_array (v_kind v) (v_size v) (arr_shape 8 src) src);;
+          guard (negb (v_ro v)) EValidation;;;
+          match lv with
+          | QId _ => unm "whole-array assignment (aliasing)"
+          | QIdx _ idxs =>
+              items <- (match idxs with
+                        | IdxList (i1 :: i2 :: rest) :: _ => ret (i1 :: i2 :: rest)
+                        | _ => mapMM (fun ix => match ix with
+                                                | IdxList (it :: _) => ret it
+                                                | IdxList [] => ierr KIndex
+                                                | IdxSet _ => unm "discrete set as an assignment index"
+                                                end) idxs
+                        end);;
+              specs <- analyze_indices items (v_dims v);;
+              s' <- getst;;
+              match get_visible s' x with
+              | Some v' =>
+                  match v_val v' with
+                  | VVArr a =>
+                      (* the selected cells and the assigned array must have the same shape *)
+                      match arr_get a specs with
+                      | Some tgt =>
+                          guard (list_eqb Z.eqb (arr_shape 8 tgt) (arr_shape 8 src')) EValidation;;;
+                          match arr_set_arr a specs src' with
+                          | Some a' => modify (fun s => update_var s x (set_val v' (VVArr a')))
+                          | None => unm "array shapes in a slice assignment"
+                          end
+                      | None => unm "array shape"
+                      end
+                  | _ => unm "indexed assignment to a non-array value"
+                  end
+              | None => ret tt
+              end;;;
+              emit []
+          end
+      | None =>
       '(raw, stmts) <-
          match bop with
          | None => eval rv false None
@@ -519,11 +796,30 @@ Definition visit_assignment (lv : qarg) (op : string) (rv : expr) : M (list stmt
       cv <- assign_value (v_kind v) (v_size v) raw;;
       guard (negb (v_ro v)) EValidation;;;
       match lv with
-      | QIdx _ _ =>
-          match v_dims v with
-          | None | Some [] => verr
-          | _ => unm "array element assignment"
-          end
+      | QIdx _ idxs =>
+          items <- (match idxs with
+                    | IdxList (i1 :: i2 :: rest) :: _ => ret (i1 :: i2 :: rest)
+                    | _ => mapMM (fun ix => match ix with
+                                            | IdxList (it :: _) => ret it
+                                            | IdxList [] => ierr KIndex
+                                            | IdxSet _ => unm "discrete set as an assignment index"
+                                            end) idxs
+                    end);;
+          specs <- analyze_indices items (v_dims v);;
+          s' <- getst;;
+          match get_visible s' x with
+          | Some v' =>
+              match v_val v' with
+              | VVArr a =>
+                  match arr_set_scalar a specs cv with
+                  | Some a' => modify (fun s => update_var s x (set_val v' (VVArr a')))
+                  | None => unm "array shape"
+                  end
+              | _ => unm "indexed assignment to a non-array value"
+              end
+          | None => ret tt
+          end;;;
+          emit stmts
       | QId _ =>
           (* the Variable object found by the lookup is mutated in place; re-read it after the
              evaluation of the right-hand side (a subroutine call may have run meanwhile) *)
@@ -533,6 +829,7 @@ Definition visit_assignment (lv : qarg) (op : string) (rv : expr) : M (list stmt
           | None => ret tt
           end;;;
           emit stmts
+      end
       end
   end.
 
@@ -1079,6 +1376,83 @@ Definition actual_arg_name (e : expr) : option string :=
   | _ => None
   end.
 
+(* subroutines._process_classical_arg_by_reference: the formal is bound to (a view of) the actual array *)
+Definition lit_item (it : idxitem) : bool :=
+  let lit e := match e with ELit (VInt _) => true | _ => false end in
+  let olit o := match o with None => true | Some e => lit e end in
+  match it with
+  | IExpr e => lit e
+  | IRange a b c => olit a && olit b && olit c
+  end.
+
+Definition actual_items (e : expr) : option (list idxitem) :=
+  match e with
+  | EIndexE (EId _) (IdxList items) => Some items
+  | EIndexE (EId _) (IdxSet vals) => Some (map IExpr vals)
+  | EIndexE (EIndexE _ _) _ => option_map snd (nested_items e [])
+  | _ => None
+  end.
+
+Definition process_array_ref_arg (base : ctype) (fdims : list expr) (ndim : option expr) (fname : string)
+  (readonly : bool) (actual : expr) : M (string * var) :=
+  fsz <- (match size_of_ctype base with
+          | None => ierr KAttr
+          | Some None => ret VNone
+          | Some (Some e) => eval_simple e false None
+          end);;
+  match actual_arg_name actual with
+  | None => verr
+  | Some a =>
+      s <- getst;;
+      guard (negb (smemk a (qreg_sizes s))) EValidation;;;
+      guard (check_in_scope s a) EValidation;;;
+      match get_visible s a with
+      | None => ierr KAttr
+      | Some av =>
+          match v_dims av with
+          | None | Some [] => verr
+          | Some adims =>
+              (* base types and sizes of the elements must match *)
+              guard (vkind_eqb (kind_of_ctype base) (v_kind av) &&
+                     match fsz, v_size av with VInt z, Some z' => z =? z' | _, _ => false end) EValidation;;;
+              n <- (match ndim with
+                    | Some e => v <- eval_simple e true (Some KInt);; as_int_index v
+                    | None => ret (Z.of_nat (List.length fdims))
+                    end);;
+              guard (0 <? n) EValidation;;;
+              guard (n <=? Z.of_nat (List.length adims)) EValidation;;;
+              dims <- (match ndim with
+                       | Some _ => ret (firstn (Z.to_nat n) adims)
+                       | None =>
+                           mapMM (fun p => v <- eval_simple (fst p) true (Some KInt);;
+                                           d <- as_int_index v;;
+                                           guard (0 <? d) EValidation;;;
+                                           guard (d <=? snd p) EValidation;;;
+                                           ret d) (combine fdims adims)
+                       end);;
+              match actual with
+              | EId _ => ret (fname, mkVar (v_kind av) (v_size av) (Some dims) (v_val av) false false readonly)
+              | EIndexE _ _ =>
+                  (* the formal is a numpy VIEW of the selected sub-array *)
+                  '(_, items) <- index_items actual;;
+                  guard (forallb lit_item items) (EUnmodelled "non-literal index in an array actual");;;
+                  specs <- analyze_indices items (v_dims av);;
+                  match v_val av with
+                  | VVArr a =>
+                      match arr_get a specs with
+                      | Some (ANode l) =>
+                          ret (fname, mkVar (v_kind av) (v_size av) (Some dims) (VVArr (ANode l)) false false readonly)
+                      | Some (ALeaf _) => unm "array element passed by reference"
+                      | None => unm "array shape"
+                      end
+                  | _ => unm "indexed non-array value"
+                  end
+              | _ => unm "array actual shape"
+              end
+          end
+      end
+  end.
+
 Definition process_classical_arg (t : ctype) (fname : string) (actual : expr) : M (string * var) :=
   match t with
   | TArrayRef _ _ _ => unm "array reference argument"
@@ -1134,6 +1508,9 @@ Definition call_body (f : string) (args : list expr) : M (pyval * list stmt) :=
             : M (list (string * var) * list (string * var) * list (string * Z) * list (bitref * bitref) * list (string * list Z)) :=
             match l with
             | [] => ret (qv, cv, fsz, fmap, dup)
+            | (actual, FClassical (TArrayRef base fdims ndim) fname ro) :: l' =>
+                x <- process_array_ref_arg base fdims ndim fname ro actual;;
+                go l' qv (cv ++ [x]) fsz fmap dup
             | (actual, FClassical t fname _) :: l' =>
                 x <- process_classical_arg t fname actual;;
                 go l' qv (cv ++ [x]) fsz fmap dup
@@ -1167,6 +1544,14 @@ Definition call_body (f : string) (args : list expr) : M (pyval * list stmt) :=
                     go l' (qv ++ [(fname, mkVar KQubit (Some n) None VVNone false false false)]) cv fsz' fmap' dup'
                 end
             end) (combine args (s_args sd)) [] [] [] [] [];;
+      (* two views of one array alias each other inside the body: outside the model *)
+      (let refs := flat_map (fun p => match p with
+                                      | (actual, FClassical (TArrayRef _ _ _) _ _) =>
+                                          match actual_arg_name actual with Some a => [a] | None => [] end
+                                      | _ => []
+                                      end) (combine args (s_args sd)) in
+       guard (Nat.eqb (List.length (nodup string_dec refs)) (List.length refs))
+             (EUnmodelled "one array passed by reference twice"));;;
       modify (fun s => push_ctx CFunction (level_push (push_scope s)));;;
       iterM (fun p => s <- getst;; putres (add_var s (fst p) (snd p))) (qvars ++ cvars);;;
       modify (fun s => with_fn s (fsz :: fn_sizes s) (fmap :: fn_maps s));;;
@@ -1200,7 +1585,36 @@ Definition call_body (f : string) (args : list expr) : M (pyval * list stmt) :=
                      end);;
               ret (v', stmts)
           end);;
+      (* array formals are views of the actual arrays: what the body wrote is visible to the caller *)
+      sf <- getst;;
+      let backs := flat_map (fun p => match p with
+                                      | (actual, FClassical (TArrayRef _ _ _) fname false) =>
+                                          match actual_arg_name actual, sget fname (curr_scope sf) with
+                                          | Some a, Some fv => [(a, actual_items actual, v_val fv)]
+                                          | _, _ => []
+                                          end
+                                      | _ => []
+                                      end) (combine args (s_args sd)) in
       modify (fun s => pop_scope (level_pop (pop_ctx (with_fn s (tl (fn_sizes s)) (tl (fn_maps s))))));;;
+      iterM (fun b => let '(a, oitems, val) := b in
+                      s <- getst;;
+                      match get_visible s a with
+                      | Some av =>
+                          match oitems with
+                          | None => modify (fun s => update_var s a (set_val av val))
+                          | Some items =>
+                              specs <- analyze_indices items (v_dims av);;
+                              match v_val av, val with
+                              | VVArr a0, VVArr src =>
+                                  match arr_set_arr a0 specs src with
+                                  | Some a' => modify (fun s => update_var s a (set_val av (VVArr a')))
+                                  | None => unm "array shapes in a view write-back"
+                                  end
+                              | _, _ => unm "view write-back of a non-array value"
+                              end
+                          end
+                      | None => ret tt
+                      end) backs;;;
       if check_only then ret (rv, []) else ret (rv, out ++ rstmts)
   end.
 
